@@ -17,6 +17,8 @@ impl From<serde_json::Value> for JsonShape {
 
 impl From<&serde_json::Value> for JsonShape {
     fn from(value: &serde_json::Value) -> Self {
+        #[cfg(feature = "verif")]
+        crate::verif::TICKS_FROM_VALUE.fetch_add(1, std::sync::atomic::Ordering::Relaxed);
         match value {
             serde_json::Value::Null => Self::Null,
             serde_json::Value::Bool(_) => Self::Bool { optional: false },
